@@ -129,15 +129,20 @@ def _check(x: Any, q: Any, E: int, M: int, tag: str, fmt: Any, full: bool = True
     add("not_representable", ~fp.is_representable(q64, E, M))
     add("not_a_neighbour", (aq != lower) & (aq != upper))
     add("sign_flipped", (aq != 0) & (torch.signbit(q64) != torch.signbit(x64)))
+    # +-0 are inputs of the quantifier: a zero result carries the sign of its input (q(-0.0) is -0.0, a negative
+    # value that underflows gives -0.0), which only a sign-BIT comparison can see (-0.0 == 0.0)
+    add("zero_sign_flipped", (aq == 0) & (torch.signbit(q64) != torch.signbit(x64)))
     dnear = torch.minimum(ax - lower, upper - ax)
     add("farther_than_nearest", (aq - ax).abs() > dnear + sp * 2.0 ** (M - 23))
     add("not_saturated", (x64.abs() >= mx) & (aq != mx))
     add("fixed_point_moved", (ax == lower) & (aq != lower))
     if full:
         q2 = fmt.quantise(q.clone())
-        add("not_idempotent", q2.to(torch.float64).flatten() != q64)
+        q2_64 = q2.to(torch.float64).flatten()
+        add("not_idempotent", (q2_64 != q64) | (torch.signbit(q2_64) != torch.signbit(q64)))
         qn = fmt.quantise(-x)
-        add("not_odd", qn.to(torch.float64).flatten() != -q64)
+        qn64 = qn.to(torch.float64).flatten()
+        add("not_odd", (qn64 != -q64) | (torch.signbit(qn64) == torch.signbit(q64)))
     return v
 
 
